@@ -41,6 +41,10 @@ IfK == { [stmts |-> <<IfS(BoolE(bv), b[1], <<PStr("in")>>, TRUE)>>, assigned |->
 SetK == { [stmts |-> <<SetS(n, IntE(11))>>, assigned |-> {n}, locals |-> {}, kind |-> "set", scoped |-> FALSE] : n \in {"x", "w"} }
         \cup { [stmts |-> <<SetCap(n, <<Text("c"), PStr("in")>>)>>, assigned |-> {n}, locals |-> {}, kind |-> "setcap", scoped |-> FALSE]
                : n \in {"x", "w"} }
+        (* a capture body is not a scope: what it assigns is assigned in the enclosing scope *)
+        \cup { [stmts |-> <<SetCap(n, <<SetS(u, IntE(5)), Text("c"), PStr("in"), IfS(BoolE(TRUE), <<SetS("u2", IntE(6))>>, <<>>, FALSE)>>), PStr("after")>>,
+                 assigned |-> {n, u, "u2"}, locals |-> {}, kind |-> "setcap-set", scoped |-> FALSE]
+               : n \in {"x", "w"}, u \in {"u", "y"} }
 
 (* macro call: parameters shadow; the body only touches its parameters and fresh names *)
 MacroBodies == { <<<<PStr("in")>>, {}>>, <<<<SetS("q", IntE(8)), PStr("in")>>, {"q"}>> }
